@@ -58,7 +58,7 @@ def _prove_pivots(pc, g, pivots, timeout_ms):
 
 def _prove_split(pc, goal, timeout_ms, pivots=()):
   """Whole goal first (short), then conjunct by conjunct (then pivot splits)."""
-  r, s = _check(pc, goal, min(timeout_ms, 2000))
+  r, s = _check(pc, goal, min(timeout_ms, 4000))
   if r != z3.unknown:
     return r, s
   parts = []
